@@ -4,6 +4,7 @@ import (
 	"bytes"
 	"encoding/hex"
 	"fmt"
+	"os"
 	"sort"
 	"strings"
 	"testing"
@@ -142,6 +143,66 @@ func TestE1Codec(t *testing.T) {
 	defer drv.Close()
 	rng := NewRng(Seed())
 	n := EnvInt("VERIF_N", 3000)
+	// large payloads (the property's "arbitrary byte contents"): around 64 KiB, around 1 MiB, several MiB:
+	// the record codec and the real log file, written, closed and reopened
+	for _, size := range []int{1<<16 - 1, 1 << 16, 1<<20 - 40, 1<<20 + 1, 3<<20 + 7} {
+		data := make([]byte, size)
+		for k := range data {
+			data[k] = byte(rng.Intn(256))
+		}
+		e := &raft.LogEntry{Index: 2, Term: 3, Data: data, EntryType: raft.OperationEntry}
+		line := fmt.Sprintf("LOGREC-LARGE | payload of %d bytes", size)
+		rep.Case(line, true)
+		rep.Hit("LOGREC-LARGE")
+		wire, err := raft.VerifEncodeLogEntry(e)
+		if err != nil {
+			rep.Add(Finding{Kind: "oracle", Property: "C19", Oracle: "log record could not be encoded: " + err.Error(), Case: line})
+			continue
+		}
+		back, err := raft.VerifDecodeLogEntry(wire)
+		if err != nil || back.Index != e.Index || back.Term != e.Term || !bytes.Equal(back.Data, data) {
+			rep.Add(Finding{Kind: "oracle", Property: "C19", Oracle: fmt.Sprintf("a log record with a payload of %d bytes was encoded but does not decode to itself (err=%v)", size, err), Case: line,
+				Signature: map[string]string{"oracle": "record-roundtrip", "size": "large"}})
+		}
+		dir, _ := os.MkdirTemp(ScratchRoot(), "verif-e1log-")
+		func() {
+			defer os.RemoveAll(dir)
+			lg, err := raft.NewLog(dir)
+			if err != nil {
+				t.Fatal(err)
+			}
+			if err := lg.Open(); err != nil {
+				t.Fatal(err)
+			}
+			lg.Replay()
+			small := &raft.LogEntry{Index: 1, Term: 3, Data: []byte("a"), EntryType: raft.OperationEntry}
+			after := &raft.LogEntry{Index: 3, Term: 3, Data: []byte("z"), EntryType: raft.OperationEntry}
+			if err := lg.AppendEntries([]*raft.LogEntry{small, e, after}); err != nil {
+				rep.Add(Finding{Kind: "oracle", Property: "C19", Oracle: fmt.Sprintf("appending an entry of %d bytes failed: %v", size, err), Case: line})
+				return
+			}
+			lg.Close()
+			lg2, err := raft.NewLog(dir)
+			if err == nil {
+				err = lg2.Open()
+			}
+			if err == nil {
+				err = lg2.Replay()
+			}
+			if err != nil {
+				rep.Add(Finding{Kind: "oracle", Property: "C19", Oracle: fmt.Sprintf("a log holding an entry of %d bytes cannot be reopened: %v", size, err), Case: line,
+					Signature: map[string]string{"oracle": "log-readback", "size": "large"}})
+				return
+			}
+			defer lg2.Close()
+			g, gerr := lg2.GetEntry(2)
+			h, herr := lg2.GetEntry(3)
+			if gerr != nil || herr != nil || g == nil || h == nil || !bytes.Equal(g.Data, data) || string(h.Data) != "z" || lg2.LastIndex() != 3 {
+				rep.Add(Finding{Kind: "oracle", Property: "C19", Oracle: fmt.Sprintf("after reopening, the entry of %d bytes or the entry after it is not what was appended (last index %d, errors %v / %v)", size, lg2.LastIndex(), gerr, herr), Case: line,
+					Signature: map[string]string{"oracle": "log-readback", "size": "large"}})
+			}
+		}()
+	}
 	for i := 0; i < n; i++ {
 		switch i % 10 {
 		case 0:
